@@ -65,6 +65,8 @@ def scripts_for(tier, seed):
         add(S.gso(r, len(scripts)))
     for _ in range(80 * n):
         add(S.pto(r, len(scripts)))
+    for _ in range(50 * n):
+        add(S.dgfit(r, len(scripts)))
     cov = {"probe_fate_vectors_enumerated_by_tlc": len(pvecs), "link_schedules_enumerated_by_tlc": len(links),
            "datagram_fate_vectors_enumerated_by_tlc": len(fvecs), "generator_states": [g1, g2, g3]}
     return scripts, cov
